@@ -276,8 +276,11 @@ func (e *extInfo) anyPath() (string, bool) {
 
 // execPath reports whether files at this path have to carry an executable bit to be required.
 func (e *extInfo) execPath(path string) bool {
-	if required(e.New, path, 100, false) {
-		return false
+	k := e.Name + "\x00" + path
+	if v, ok := execCache.Load(k); ok {
+		return v.(bool)
 	}
-	return required(e.New, path, 100, true)
+	v := !required(e.New, path, 100, false) && required(e.New, path, 100, true)
+	execCache.Store(k, v)
+	return v
 }
